@@ -243,6 +243,7 @@ func runC15(w *World, r *Report) {
 		}
 	}
 	ruleAssoc(w, r, funcPrec)
+	ruleReduceGate(w, r)
 }
 
 func fmtEntry(e *infixEntry) string {
@@ -471,6 +472,17 @@ var c15Witnesses = []Witness{
 		{File: "parser.go", Old: "			return p1 - p2\n", New: "			return p2 - p1\n"}}},
 	{Name: "operands-popped-forward", Rule: "R-ASSOC", Edits: []Edit{
 		{File: "parser.go", Old: "				for i := cnt - 1; i >= 0; i-- {\n					children[i] = pop()\n				}", New: "				for i := 0; i < cnt; i++ {\n					children[i] = pop()\n				}"}}},
+	{Name: "prefix-operator-reduces-stack (D13)", Rule: "R-REDUCEGATE", Edits: []Edit{
+		{File: "parser.go", Old: "			if p.getInfixOpInfo(car.val).childCount != 1 {\n				err = buildTopOperators(car)\n				if err != nil {\n					return nil, err\n				}\n			}", New: "			err = buildTopOperators(car)\n			if err != nil {\n				return nil, err\n			}"}}},
+	{Name: "call-built-early-at-closing-paren", Rule: "R-REDUCEGATE", Edits: []Edit{
+		{File: "parser.go", Old: "			for l := len(operatorStack); l != 0; l = len(operatorStack) {\n				top := operatorStack[l-1]\n				if car.typ == rParen && top.t.typ == lParen {\n					operatorStack = operatorStack[:l-1]\n					break\n				}\n\n				if comparePrecedence(car, top.t) > 0 {", New: "			closeCall := false\n			for l := len(operatorStack); l != 0; l = len(operatorStack) {\n				top := operatorStack[l-1]\n				if car.typ == rParen && top.t.typ == lParen {\n					operatorStack = operatorStack[:l-1]\n					if l > 1 && operatorStack[l-2].t.typ == ident && operatorStack[l-2].l == top.l {\n						closeCall = true\n						continue\n					}\n					break\n				}\n\n				if !closeCall && comparePrecedence(car, top.t) > 0 {"}}},
+	{Name: "paren-match-keeps-reducing", Rule: "R-REDUCEGATE", Edits: []Edit{
+		{File: "parser.go", Old: "				if car.typ == rParen && top.t.typ == lParen {\n					operatorStack = operatorStack[:l-1]\n					break\n				}", New: "				if car.typ == rParen && top.t.typ == lParen {\n					operatorStack = operatorStack[:l-1]\n					car = token{}\n					continue\n				}"}}},
+	{Name: "benign-prefix-test-inside-closure", Benign: true, Edits: []Edit{
+		{File: "parser.go", Old: "			if p.getInfixOpInfo(car.val).childCount != 1 {\n				err = buildTopOperators(car)\n				if err != nil {\n					return nil, err\n				}\n			}", New: "			err = buildTopOperators(car)\n			if err != nil {\n				return nil, err\n			}"},
+		{File: "parser.go", Old: "		buildTopOperators = func(car token) error {\n", New: "		buildTopOperators = func(car token) error {\n			if car.typ == ident && p.getInfixOpInfo(car.val).childCount == 1 {\n				return nil\n			}\n"}}},
+	{Name: "benign-stop-test-inverted-form", Benign: true, Edits: []Edit{
+		{File: "parser.go", Old: "				if comparePrecedence(car, top.t) > 0 {\n					break\n				}\n", New: "				if c := comparePrecedence(car, top.t); c >= 1 {\n					break\n				}\n"}}},
 	{Name: "benign-precedence-renumbered", Benign: true, Edits: []Edit{
 		{File: "parser.go", Old: "		return infixOpInfo{precedence: 8, childCount: 2}", New: "		return infixOpInfo{precedence: 9, childCount: 2}"}}},
 }
